@@ -105,6 +105,26 @@ func c11Spec(p c11Params, mapMonitor bool) *VsSpec {
 			vs.Idle()
 			rm := by.Rpc(&wire.Msg{Type: wire.Tstat, Tag: 6, Fid: 0})
 			byMidOK = rm != nil && rm.Type == wire.Rstat
+		case "slowconnclosed", "slowfiddestroy":
+			// the implementation is slow to clean up after the connection: the others must not wait for it
+			s.fs.TeardownIn = map[string]string{"slowconnclosed": "ConnClosed", "slowfiddestroy": "FidDestroy"}[p.Close]
+			tg := vs.NewSem(0)
+			s.fs.TeardownGate = tg
+			s.c.End.Close()
+			vs.Idle()
+			rm := by.Rpc(&wire.Msg{Type: wire.Tstat, Tag: 6, Fid: 0})
+			byMidOK = rm != nil && rm.Type == wire.Rstat
+			if byMidOK {
+				// a connection opened meanwhile is served as well
+				nc := s.h.Connect()
+				if r := nc.Version(256, "9P2000"); r == nil || r.Type != wire.Rversion {
+					byMidOK = false
+				}
+				nc.End.Close()
+				vs.Idle()
+			}
+			tg.Release()
+			vs.Idle()
 		case "versionwhilestalled":
 			// the client stopped reading, then renegotiates (Tversion is answered by the
 			// reader goroutine itself, which now waits for the blocked writer), then goes away
@@ -200,7 +220,7 @@ func c11Spec(p c11Params, mapMonitor bool) *VsSpec {
 			return v("bystander-disturbed", "the bystander connection no longer answers")
 		}
 		if !byMidOK {
-			return v("bystander-disturbed/while-victim-half-closed", "while the disconnecting client had shut down its sending side and was not reading, the bystander connection got no answer")
+			return v("bystander-disturbed/while-victim-"+p.Close, "while the server was not yet done with the disconnecting connection ("+p.Close+"), the bystander connection (or a new connection) got no answer")
 		}
 		return nil
 	}, nil)
@@ -406,6 +426,9 @@ func c11Scenarios(tier string) []Scenario {
 		}
 	}
 	// every way of going away while the writer is blocked, with the unbuffered reply queue too
+	for i, cl := range []string{"slowconnclosed", "slowfiddestroy"} {
+		add(c11Params{Prefix: 4, Parked: []string{}, Close: cl, Maxpend: i * 2, Dotu: i%2 == 0, P: 1})
+	}
 	for i, cl := range []string{"stalledwriter", "halfclosed", "versionwhilestalled"} {
 		add(c11Params{Prefix: 3, Parked: []string{}, Close: cl, Maxpend: 0, Dotu: i%2 == 0, P: 1})
 		add(c11Params{Prefix: 5, Parked: []string{"read"}, Close: cl, Maxpend: 0, Dotu: i%2 == 1, P: 1})
@@ -425,7 +448,7 @@ func c11Scenarios(tier string) []Scenario {
 func init() {
 	register(&Property{ID: "C11", Level: "model_checking",
 		Technique: "stateless model checking of the real server under a controlled scheduler; leaks decided at the final quiescent state",
-		Rule:      "every schedule with at most P preemptions from the disconnect onwards, per scenario: every prefix of a history that leaves fids attached/walked/open/created/clunked x set of requests parked in the implementation x every release order x disconnect at a frame boundary / mid-frame / right after a request / while the server's writer is blocked inside Write (client stopped reading; also after the client half-closed, or sent a Tversion meanwhile) x Maxpend 0/2 x dialect, with a bystander connection; plus sequential histories in which a request is held on a fid across its clunk / remove and the re-binding of its number, then completes, then the client disconnects; 9 histories on the real Ufs after which no descriptor may refer into the exported tree; distinct = distinct per-object operation orders",
+		Rule:      "every schedule with at most P preemptions from the disconnect onwards, per scenario: every prefix of a history that leaves fids attached/walked/open/created/clunked x set of requests parked in the implementation x every release order x disconnect at a frame boundary / mid-frame / right after a request / while the server's writer is blocked inside Write (client stopped reading; also after the client half-closed, or sent a Tversion meanwhile; an implementation slow inside ConnClosed / FidDestroy) x Maxpend 0/2 x dialect, with a bystander connection; plus sequential histories in which a request is held on a fid across its clunk / remove and the re-binding of its number, then completes, then the client disconnects; 9 histories on the real Ufs after which no descriptor may refer into the exported tree; distinct = distinct per-object operation orders",
 		Assumptions: []string{"code between two synchronisation operations is atomic (race-free executions)", "a client disconnect is the client end closing: the server reads EOF after draining, its writes fail", "the Ufs file-descriptor clause is checked by sequential histories on the real Ufs with /proc/self/fd as the oracle (a garbage collection in between could only hide a leak, never invent one)"},
 		Scenarios:   c11Scenarios, QuickS: 180, ThoroughS: 1500})
 }
